@@ -224,7 +224,7 @@ class DTLZII(BenchmarkFunction):
                 fi *= cos(0.5 * x[j] * pi)
 
             if i > 0:
-                fi *= sin(x[m - i] * pi / 2.)
+                fi *= sin(x[m - i - 1] * pi / 2.)
             gm = 0.
             for i in range(0, k):
                 gm += (x[len(x) - i - 1] - 0.5) ** 2.
@@ -284,7 +284,7 @@ class DTLZIII(BenchmarkFunction):
                 fi *= cos(0.5 * x[j] * pi)
 
             if i > 0:
-                fi *= sin(x[m - i] * pi / 2.)
+                fi *= sin(x[m - i - 1] * pi / 2.)
             # gm = 0.
             # for i in range(0, k):
             #     gm += (x[len(x) - i-1] - 0.5) ** 2.
@@ -347,7 +347,7 @@ class DTLZIV(BenchmarkFunction):
                 fi *= cos(0.5 * x[j] ** alpha * pi)
 
             if i > 0:
-                fi *= sin(x[m - i] ** alpha * pi / 2.)
+                fi *= sin(x[m - i - 1] ** alpha * pi / 2.)
             gm = 0.
             for i in range(0, k):
                 gm += (x[len(x) - i - 1] - 0.5) ** 2.
